@@ -407,7 +407,18 @@ func GenPlan(profName string, seed uint64) *Plan {
 		// trailing NUL bytes or in length, share a prefix up to and across the
 		// 8/16/32-byte marks, differ in one late byte of a long text, or in case
 		var fam [][]byte
-		switch g.n(5) {
+		switch g.n(6) {
+		case 5: // very long texts of equal length that differ in one interior byte
+			base := make([]byte, g.pick([]int{300, 1025, 4097, 8200, 20000}))
+			for i := range base {
+				base[i] = byte('A' + i%53)
+			}
+			for i := 0; i < 10; i++ {
+				t := append([]byte{}, base...)
+				pos := []int{1, len(t) / 4, len(t)/2 - 1, len(t) / 2, len(t)/2 + 1, 3 * len(t) / 4, len(t) - 2, 2049, 2048, 7}[i] % len(t)
+				t[pos] ^= byte(0x20 + i)
+				fam = append(fam, t)
+			}
 		case 0: // zero-extension aliases, short
 			stem := []byte{byte(g.rng(1, 250))}
 			if g.p(500) {
